@@ -81,15 +81,16 @@ func (l *fdLog) has(x []float64) bool {
 }
 
 type fdInst struct {
-	op      int // 0 Derivative 1 Gradient 2 Jacobian 3 Hessian 4 Laplacian 5 CrossLaplacian
-	dim     int
-	m       int // Jacobian output dimension
-	formula int
-	step    float64
-	x, y    []float64
-	origin  bool
-	exact   bool
-	coef    []float64
+	op       int // 0 Derivative 1 Gradient 2 Jacobian 3 Hessian 4 Laplacian 5 CrossLaplacian
+	dim      int
+	m        int // Jacobian output dimension
+	formula  int
+	step     float64
+	x, y     []float64
+	origin   bool
+	exact    bool
+	scribble bool // f overwrites the slice it was given after using it
+	coef     []float64
 }
 
 var fdOpNames = []string{"Derivative", "Gradient", "Jacobian", "Hessian", "Laplacian", "CrossLaplacian"}
@@ -116,6 +117,11 @@ func drawFD(t *simrt.Tape) *fdInst {
 	in.step = math.Ldexp(1, -1-t.Choose(simrt.KWorkload, 4)) // 1/2 .. 1/16
 	in.exact = t.Choose(simrt.KWorkload, 3) != 2
 	in.origin = t.Choose(simrt.KWorkload, 2) == 1
+	// Only Gradient evaluates f exclusively on private copies in its serial
+	// path too (the others hand the caller's own x to f for the origin), so
+	// only there is "the serial answer" defined for a callback that uses its
+	// argument as scratch space.
+	in.scribble = in.op == 1 && t.Choose(simrt.KWorkload, 2) == 1
 	in.x = make([]float64, in.dim)
 	in.y = make([]float64, in.dim)
 	for i := range in.x {
@@ -169,6 +175,7 @@ func runFD(t *simrt.Tape, rc *RunCtx) *Violation {
 	rc.Instance["x"] = fmt.Sprint(in.x)
 	rc.Instance["origin_known"] = in.origin
 	rc.Instance["exact_arithmetic"] = in.exact
+	rc.Instance["callback_scribbles_on_argument"] = in.scribble
 	rc.declare("concurrent_path_taken", "evaluations_overlapped", "origin_known", "gomaxprocs_1_serial_fallback")
 
 	argDim := in.dim
@@ -186,6 +193,13 @@ func runFD(t *simrt.Tape, rc *RunCtx) *Violation {
 			}
 			v := in.scalar(x)
 			log.leave(v, sameBits(keep, x))
+			if in.scribble {
+				// a callback that uses its argument as scratch space: the
+				// evaluation points of later calls must not depend on it
+				for i := range x {
+					x[i] = x[i]*x[i] + 1e3
+				}
+			}
 			return v
 		}
 		set := &fd.Settings{Formula: form.f, Step: in.step, Concurrent: concurrent}
